@@ -6,6 +6,8 @@ import Proofs.Fuel
 import Proofs.EncSpec
 import Props.C02
 import Props.C18
+import Proofs.StreamRaw
+import Proofs.KernelReadTurn
 
 namespace Asn1.C06
 
@@ -84,6 +86,45 @@ theorem error_hierarchy :
     ("SubstrateUnderrunError", "PyAsn1Error") ∈ Generated.errorSubclass ∧
     ("EndOfStreamError", "PyAsn1Error") ∈ Generated.errorSubclass := by
   decide
+
+/-! ### at the source level: a read that the stream cannot satisfy, as `readFromStream` is in /repo on this run -/
+
+/-- **a stream that ends before the octets asked for, still open: an underrun and nothing else** - the translated turn of
+    `readFromStream` (`GenK.readTurn`, regenerated from codec/streaming.py), whatever the sizes of the short reads (`cap`),
+    hands out no octets, raises nothing, and leaves the position where the turn began - for every stream content `d`,
+    every position inside it and every request that reaches past its end -/
+theorem source_truncated_open_is_underrun (d : Bytes) (cap pos n : Nat) (hn : n ≤ 1048576) (hp : pos ≤ d.length)
+    (hshort : d.length < pos + n) :
+    GenK.readTurn (Kernels.rdOf d false cap) (pos : Int) (n : Int) = .ok (none, (pos : Int)) := by
+  rw [Kernels.readTurn_kernel d false cap pos n hn hp,
+    Stream.readFromStreamRaw_eq_readAns .seekable (by decide) d false _ pos n hp]
+  have : ¬ (pos + n ≤ d.length) := by omega
+  simp [Stream.readAns, this, Stream.Kind.isOpen, Kernels.liftAns]
+
+/-- **the same stream once it is closed: EndOfStreamError and nothing else** - never the octets that are there, never
+    another error (with `error_hierarchy`: an insufficient-data error) -/
+theorem source_truncated_closed_is_end_of_stream (d : Bytes) (cap pos n : Nat) (hn : n ≤ 1048576) (hp : pos ≤ d.length)
+    (hshort : d.length < pos + n) :
+    GenK.readTurn (Kernels.rdOf d true cap) (pos : Int) (n : Int) = .error (.lib "EndOfStreamError") := by
+  rw [Kernels.readTurn_kernel d true cap pos n hn hp,
+    Stream.readFromStreamRaw_eq_readAns .seekable (by decide) d true _ pos n hp]
+  have : ¬ (pos + n ≤ d.length) := by omega
+  simp [Stream.readAns, this, Stream.Kind.isOpen, Kernels.liftAns]
+
+/-- and conversely a read the stream can satisfy is never reported as an underrun: the octets, the position past them -/
+theorem source_complete_read_is_data (d : Bytes) (closed : Bool) (cap pos n : Nat) (hn : n ≤ 1048576)
+    (hfull : pos + n ≤ d.length) :
+    GenK.readTurn (Kernels.rdOf d closed cap) (pos : Int) (n : Int) =
+      .ok (some (Kernels.bytesInts ((d.drop pos).take n)), ((pos + n : Nat) : Int)) := by
+  rw [Kernels.readTurn_kernel d closed cap pos n hn (by omega),
+    Stream.readFromStreamRaw_eq_readAns .seekable (by decide) d closed _ pos n (by omega)]
+  have hm : min n (d.length - pos) = n := by omega
+  simp [Stream.readAns, hfull, Kernels.liftAns, hm]
+
+/-- non-vacuity: the 5-octet element `30 03 02 01 05` cut after 3 octets, its 3-octet body asked at position 2 -/
+example : GenK.readTurn (Kernels.rdOf [0x30, 0x03, 0x02] false 0) 2 3 = .ok (none, 2) := by rfl
+example : GenK.readTurn (Kernels.rdOf [0x30, 0x03, 0x02] true 0) 2 3 = .error (.lib "EndOfStreamError") := by rfl
+example : GenK.readTurn (Kernels.rdOf [0x30, 0x03, 0x02, 0x01, 0x05] true 0) 2 3 = .ok (some [2, 1, 5], 5) := by rfl
 
 /-- non-vacuity: a concrete well-formed nested element (SEQUENCE, indefinite, holding an INTEGER) -/
 example : (TLV.cons [0x30, 0x80] ⟨.universal, true, 16⟩ true
